@@ -211,9 +211,51 @@ def _family(tier):
             if tier != "thorough" and n % 4:
                 continue
             out.append(("cascade %s %s" % (combo, ro), "plain", cascade.build_yaml(combo, ro)))
-    for name, txt in common.accelerator_specs():
+    for name, txt in common.accelerator_variants(tier):
         out.append((name, "metrics", txt))
+    from props import indexmath_family
+    out += indexmath_family.specs(tier)
+    out.append(("one intersector bound to two ranks", "metrics", SHARED_INTERSECTOR))
     return out
+
+
+SHARED_INTERSECTOR = """
+einsum:
+  declaration:
+    Z: [I]
+    A: [I, J, K]
+    B: [I, J, K]
+  expressions:
+  - Z[i] = A[i, j, k] * B[i, j, k]
+mapping:
+  loop-order:
+    Z: [I, J, K]
+architecture:
+  acc:
+  - name: System
+    attributes:
+      clock_frequency: 1000
+    local:
+    - name: Isect
+      class: Intersector
+      attributes:
+        type: two-finger
+    - name: Skip
+      class: Intersector
+      attributes:
+        type: skip-ahead
+bindings:
+  Z:
+  - config: acc
+    prefix: tmp/shared
+  - component: Isect
+    bindings:
+    - rank: J
+    - rank: K
+  - component: Skip
+    bindings:
+    - rank: I
+"""
 
 
 def check_family(tier, limit=None):
@@ -224,7 +266,7 @@ def check_family(tier, limit=None):
         try:
             if mode == "metrics":
                 text = str(common.compile_full(y))
-            else:
+            else:      # plain, or with the spacetime section the specification carries
                 text = str(HiFiber(Einsum.from_str(y), Mapping.from_str(y)))
             user, outs = user_names(y)
         except Exception:      # noqa
@@ -235,11 +277,29 @@ def check_family(tier, limit=None):
         if len(samples) < 3:
             samples.append({"spec": name[:80], "mode": mode, "lines": text.count("\n") + 1})
         if probs:
-            fails.append({"name": "bounded/closed-python", "detail": "%s [%s]: %s" % (name[:80], mode, probs[0]),
-                          "witness": {"spec": name, "mode": mode, "yaml": y[:1500], "problems": probs[:5]}})
-            if len(fails) > 4:
-                break
+            # one failure per distinct cause, so that a listed finding never hides a different problem of the same program
+            by_cause = {}
+            for pr in probs:
+                by_cause.setdefault(cause_of(pr, text, y), pr)
+            for cause, pr in by_cause.items():
+                fails.append({"name": "bounded/closed-python",
+                              "detail": "%s [%s]: %s%s" % (name[:110], mode, pr, (" cause=" + cause) if cause else ""),
+                              "witness": {"spec": name, "mode": mode, "yaml": y[:1500], "problems": probs[:5]}})
     return ev, len(distinct), fails, samples
+
+
+def cause_of(problem, text, y):
+    """classification of a failure, used only to match entries of known_findings.json precisely"""
+    m = re.match(r"name (\w+) read at line (\d+) is not bound", problem)
+    if not m:
+        return ""
+    var, line = m.group(1), text.split("\n")[int(m.group(2)) - 1]
+    flattened = {"".join(x.strip() for x in t.split(",")) for t in re.findall(r"\(([A-Z][A-Z0-9, ]*)\): \[flatten\(\)\]", y)}
+    root = re.sub(r"[0-9]+$", "", var.upper())
+    if ("canvas.addActivity(" in line or "timestamps" in line) and root in flattened \
+            and re.search(r"\b%s[0-9]*\.coord\b" % root, y):
+        return "coordinate-style-stamp-of-a-flattened-rank"
+    return ""
 
 
 def bounded(uni, tier, seed):
